@@ -28,6 +28,7 @@
 #include <unistd.h>
 #include <fcntl.h>
 #include <signal.h>
+#include <pthread.h>
 #include <time.h>
 #include <sys/time.h>
 
@@ -266,9 +267,10 @@ inline std::string json_escape(const std::string &s) {
 	return o;
 }
 
+inline uint64_t g_progress = 0;          // bumped atomically per case; read by the watchdog thread
 inline bool g_main_finished = false;    // after main() the statistics objects are gone: the sanitizer death callback must not touch them
 inline void flush_stats() {
-	if(g_main_finished) return;
+	if(__atomic_load_n(&g_main_finished, __ATOMIC_RELAXED)) return;
 	auto &c = config();
 	auto &s = stats();
 	if(c.out.empty()) return;
@@ -345,6 +347,7 @@ inline Outcome run_one(const uint32_t *p, size_t n) {
 	o.desc = c.desc;
 	auto &s = stats();
 	s.cases++;
+	__atomic_fetch_add(&g_progress, 1, __ATOMIC_RELAXED);
 	switch(o.code) {
 	case 0: s.passed++; break;
 	case 1: s.failed++; break;
@@ -383,19 +386,25 @@ inline int rc_cb(const uint32_t *p, size_t n, void *) {
 	return 0;
 }
 
-// A single case takes micro- to milliseconds. A case that burns 4 consecutive 5 s slices of
-// CPU time (not wall time: load does not matter) does not terminate: exit 4, the journal holds it.
-inline void hang_tick(int) {
-	static uint64_t last = ~0ull; static int stalled = 0;
-	uint64_t now = stats().cases;
-	if(now == last) { if(++stalled >= 4) { const char m[] = "VERIF-HANG: one case used more than 20 s of CPU time\n"; (void)!write(2, m, sizeof m - 1); _exit(4); } }
-	else { stalled = 0; last = now; }
+// A single case takes micro- to milliseconds. A case during which the process burns 20 s of CPU
+// time (not wall time: load does not matter) does not terminate: exit 4, the journal holds it.
+// A watchdog thread is used rather than a timer signal: TSan delivers asynchronous signals only at
+// interceptor boundaries, i.e. never inside a tight loop.
+__attribute__((no_sanitize("thread"))) inline void *hang_watchdog(void *) {
+	uint64_t last_cases = ~0ull; double cpu_at_last_progress = 0;
+	while(true) {
+		struct timespec nap = {1, 0}; nanosleep(&nap, nullptr);
+		if(__atomic_load_n(&g_main_finished, __ATOMIC_RELAXED)) return nullptr;
+		struct timespec ts; clock_gettime(CLOCK_PROCESS_CPUTIME_ID, &ts);
+		double cpu = ts.tv_sec + ts.tv_nsec * 1e-9;
+		uint64_t now = __atomic_load_n(&g_progress, __ATOMIC_RELAXED);
+		if(now != last_cases) { last_cases = now; cpu_at_last_progress = cpu; continue; }
+		if(cpu - cpu_at_last_progress > 20.0) { const char m[] = "VERIF-HANG: one case used more than 20 s of CPU time\n"; (void)!write(2, m, sizeof m - 1); _exit(4); }
+	}
 }
 inline void arm_hang_watchdog() {
-	struct sigaction sa; memset(&sa, 0, sizeof sa); sa.sa_handler = hang_tick; sa.sa_flags = SA_RESTART;
-	sigaction(SIGPROF, &sa, nullptr);
-	struct itimerval it; it.it_interval.tv_sec = 5; it.it_interval.tv_usec = 0; it.it_value = it.it_interval;
-	setitimer(ITIMER_PROF, &it, nullptr);
+	pthread_t th; pthread_attr_t at; pthread_attr_init(&at); pthread_attr_setdetachstate(&at, PTHREAD_CREATE_DETACHED);
+	pthread_create(&th, &at, hang_watchdog, nullptr);
 }
 
 inline int engine_main(int argc, char **argv) {
@@ -458,7 +467,7 @@ inline int engine_main(int argc, char **argv) {
 		return 64;
 	}
 	flush_stats();
-	g_main_finished = true;
+	__atomic_store_n(&g_main_finished, true, __ATOMIC_RELAXED);
 	return rc;
 }
 
